@@ -88,19 +88,21 @@ def gen(ctx, seed, tier):
     for page, (nprobe, nrem) in plan.items():
         for j in range(nprobe + nrem):
             # comparator magnitude: -1/1, the key difference ('d'), INT_MIN/INT_MAX ('x'): only the sign may matter
-            h = bt.gen_history(r, page, tier, flags="2" + r.choice(["", "", "", "", "d", "x"]), walks=False, allow_oracle=False,
-                               null_p=r.choice([0.0, 0.0, 0.2]))
+            # one history in six carries allocation scripts (op O<bits>): after an insertion that failed for lack of
+            # memory the positional queries are compared with the model (L2; the spec line is '*' from the script on)
+            h = bt.gen_history(r, page, tier, flags="2" + r.choice(["", "", "", "", "d", "x"]), walks=False,
+                               allow_oracle=(r.random() < 0.17), oracle_p=1.0, null_p=r.choice([0.0, 0.0, 0.2]))
             base = [o for o in h.ops if o != "w"]
             if j < nprobe:
-                cases.append("%d 2 %s w %s" % (page, " ".join(base), " ".join(probe_ops(r, h.keys))))
+                cases.append("%d %s %s w %s" % (page, h.flags, " ".join(base), " ".join(probe_ops(r, h.keys))))
             else:
                 ks = sorted(h.keys)
                 if len(ks) > 70:
                     ks = sorted(r.sample(ks, 70))
                 for k in ks:
-                    cases.append("%d 2 %s r%d w" % (page, " ".join(base), k))
+                    cases.append("%d %s %s r%d w" % (page, h.flags, " ".join(base), k))
                 # absent key: next is unconstrained, tree unchanged
-                cases.append("%d 2 %s r%d w" % (page, " ".join(base), (max(h.keys) + 2) if h.keys else 3))
+                cases.append("%d %s %s r%d w" % (page, h.flags, " ".join(base), (max(h.keys) + 2) if h.keys else 3))
     if seed == ctx.seed:
         cases += cap_states(ctx.rng("cap", seed), 3 if quick else 8)
     return cases
